@@ -4,11 +4,13 @@ import (
 	"context"
 	"fmt"
 	"net/http"
+	"net/http/cookiejar"
 	"net/url"
 	"sort"
 	"strings"
 	"time"
 
+	jose "github.com/go-jose/go-jose/v4"
 	"golang.org/x/oauth2"
 	"pgregory.net/rapid"
 
@@ -42,7 +44,7 @@ var stepKinds = []struct {
 	k string
 	w int
 }{
-	{"prov", 5}, {"rp_oidc", 4}, {"rp_oauth", 1}, {"rs", 2}, {"te", 1},
+	{"prov", 5}, {"rp_oidc", 4}, {"rp_oauth", 2}, {"rs", 2}, {"te", 2}, {"keyset", 3}, {"discover", 2},
 	{"endsession", 4}, {"revoke", 3}, {"userinfo", 2}, {"codeexchange", 2}, {"introspect", 1}, {"exchange", 1},
 	{"devicepoll", 2}, {"op_requests", 2},
 }
@@ -105,9 +107,9 @@ func genOrder(t *rapid.T) Case {
 				s.EP[name] = e
 			}
 			s.Bulk = s.Router == "provider" && rapid.IntRange(0, 3).Draw(t, "bulk") == 0
-		case "rp_oidc", "rp_oauth", "rs", "te":
+		case "rp_oidc", "rp_oauth", "rs", "te", "keyset", "discover":
 			s.P = rapid.IntRange(0, 3).Draw(t, "p")
-			s.Client = rapid.SampledFrom([]int{0, 0, 1, 1, 2}).Draw(t, "client")
+			s.Client = rapid.SampledFrom([]int{1, 1, 2, 0, 0}).Draw(t, "client")
 			s.Opt = rapid.IntRange(0, 7).Draw(t, "opt")
 		default:
 			s.I = rapid.IntRange(0, 3).Draw(t, "i")
@@ -116,6 +118,13 @@ func genOrder(t *rapid.T) Case {
 			s.Opt = rapid.IntRange(0, 3).Draw(t, "opt")
 		}
 		c.Steps = append(c.Steps, s)
+	}
+	for i := 0; i < 2; i++ {
+		c.Clients = append(c.Clients, SuppliedClient{
+			TimeoutS:      rapid.SampledFrom([]int{0, 0, 0, 5, 30, 300}).Draw(t, "timeout"),
+			Jar:           rapid.IntRange(0, 2).Draw(t, "jar") == 0,
+			CheckRedirect: rapid.IntRange(0, 2).Draw(t, "cr") == 0,
+		})
 	}
 	return c
 }
@@ -522,7 +531,7 @@ func describeStep(s Step) string {
 	switch s.K {
 	case "prov":
 		return fmt.Sprintf("NewProvider %s router, endpoint options %v bulk=%v", s.Router, epNames(s.EP), s.Bulk)
-	case "rp_oidc", "rp_oauth", "rs", "te":
+	case "rp_oidc", "rp_oauth", "rs", "te", "keyset", "discover":
 		return fmt.Sprintf("construct %s on provider %d with %s opt=%d", s.K, s.P, clientName(s.Client), s.Opt)
 	}
 	return fmt.Sprintf("call %s i=%d p=%d %s", s.K, s.I, s.P, clientName(s.Client))
@@ -635,12 +644,20 @@ func (e *orderEnv) newTE(s Step) (*teInst, error) {
 	if s.Opt&1 == 1 {
 		opts = append(opts, tokenexchange.WithStaticTokenEndpoint(p.issuer, p.issuer+expectedPath(p.ep, "token")))
 	}
-	t, err := tokenexchange.NewTokenExchangerClientCredentials(e.ctx, p.issuer, "web", "web-secret", opts...)
+	var t tokenexchange.TokenExchanger
+	var err error
+	if s.Opt&2 == 2 {
+		t, err = tokenexchange.NewTokenExchanger(e.ctx, p.issuer, opts...) // no client authentication of its own (never used for a call)
+	} else {
+		t, err = tokenexchange.NewTokenExchangerClientCredentials(e.ctx, p.issuer, "web", "web-secret", opts...)
+	}
 	if err != nil {
 		return nil, err
 	}
 	ti := &teInst{t: t, p: p, client: s.Client}
-	e.tes = append(e.tes, ti)
+	if s.Opt&2 != 2 {
+		e.tes = append(e.tes, ti)
+	}
 	return ti, nil
 }
 
@@ -681,6 +698,34 @@ func (e *orderEnv) doStep(s Step) (created *provInst, problem string, usedClient
 	case "te":
 		if _, err := e.newTE(s); err != nil {
 			return nil, "constructor: " + err.Error(), s.Client
+		}
+		return nil, "", s.Client
+	case "keyset":
+		// the key set on its own, as a resource server that verifies tokens locally builds it
+		p := e.prov(s.P)
+		ks := rp.NewRemoteKeySet(e.clientOf(s.Client), p.issuer+expectedPath(p.ep, "keys"))
+		if s.Opt&1 == 1 {
+			t, m := e.tokenOf(p)
+			if m != "" {
+				return nil, m, s.Client
+			}
+			jws, err := jose.ParseSigned(t.IDT, []jose.SignatureAlgorithm{jose.ES256})
+			if err != nil {
+				return nil, "parse: " + err.Error(), s.Client
+			}
+			if _, err := ks.VerifySignature(e.ctx, jws); err != nil {
+				return nil, "VerifySignature: " + err.Error(), s.Client
+			}
+		}
+		return nil, "", s.Client
+	case "discover":
+		p := e.prov(s.P)
+		var wk []string
+		if s.Opt&1 == 1 {
+			wk = []string{"https://redir." + hostOf(p.issuer) + oidc.DiscoveryEndpoint}
+		}
+		if _, err := client.Discover(e.ctx, p.issuer, e.clientOf(s.Client), wk...); err != nil {
+			return nil, "Discover: " + err.Error(), s.Client
 		}
 		return nil, "", s.Client
 	case "endsession":
@@ -825,8 +870,31 @@ func runOrder(c Case) *vkit.Result {
 		httphelper.DefaultHTTPClient = origDefaultClient
 		vkit.RestoreDefaultEndpoints()
 	}()
-	for i := 0; i < 2; i++ {
-		e.supplied = append(e.supplied, &http.Client{Transport: e.rt, Timeout: time.Duration(10+i) * time.Second})
+	specs := c.Clients
+	if len(specs) == 0 {
+		specs = []SuppliedClient{{TimeoutS: 10}, {TimeoutS: 11}}
+	}
+	for i, sc := range specs {
+		if i == 2 {
+			break
+		}
+		hc := &http.Client{Transport: e.rt, Timeout: time.Duration(sc.TimeoutS) * time.Second}
+		if sc.Jar {
+			hc.Jar, _ = cookiejar.New(nil)
+		}
+		if sc.CheckRedirect {
+			hc.CheckRedirect = func(_ *http.Request, via []*http.Request) error {
+				if len(via) > 5 {
+					return http.ErrUseLastResponse
+				}
+				return nil
+			}
+		}
+		res.Label(fmt.Sprintf("supplied-client:timeout=%ds", sc.TimeoutS), fmt.Sprintf("supplied-client:jar=%v", sc.Jar), fmt.Sprintf("supplied-client:own-checkredirect=%v", sc.CheckRedirect))
+		e.supplied = append(e.supplied, hc)
+	}
+	for len(e.supplied) < 2 {
+		e.supplied = append(e.supplied, &http.Client{Transport: e.rt})
 	}
 	e.start = e.take()
 	e.prev = e.start
@@ -859,7 +927,7 @@ func runOrder(c Case) *vkit.Result {
 		kinds = append(kinds, stepKey(s))
 		created, problem, used := e.doStep(s)
 		switch s.K {
-		case "prov", "rp_oidc", "rp_oauth", "rs", "te":
+		case "prov", "rp_oidc", "rp_oauth", "rs", "te", "keyset":
 			instances++
 			if len(s.EP) > 0 {
 				customProv++
@@ -904,7 +972,7 @@ func stepKey(s Step) string {
 	switch s.K {
 	case "prov":
 		return fmt.Sprintf("prov(%s,%v,%v)", s.Router, epNames(s.EP), s.Bulk)
-	case "rp_oidc", "rp_oauth", "rs", "te":
+	case "rp_oidc", "rp_oauth", "rs", "te", "keyset", "discover":
 		return fmt.Sprintf("%s(p%d,c%d,o%d)", s.K, s.P, s.Client, s.Opt)
 	}
 	return fmt.Sprintf("%s(i%d,p%d,c%d,o%d)", s.K, s.I, s.P, s.Client, s.Opt)
